@@ -16,7 +16,8 @@ RULE = ('Generated: synthetic world (2-30 layers, isothermal or strongly non-iso
         '(transmission / emission with 1-6 Gauss points / direct image) and per-quadrature-point factors: all '
         'equal to one (degenerate k-distribution: the k-table is the cross-section table repeated) or drawn in '
         '[0.01,100] (general clauses).  Non-trivial = non-isothermal, >=3 quadrature points with unequal '
-        'weights and an optical depth in (0.05,5) somewhere; distinct by case hash.')
+        'weights and an optical depth in (0.05,5) somewhere; distinct by case hash.'
+        ' A third of the worlds put the second molecule on a grid with the same end points and count but other interior spacing; a third of the degenerate cases re-load the k-tables with three more quadrature points under the live model.')
 ASSUMPTIONS = [
     'k-tables are in-memory KTable subclasses registered through KTableCache.add_opacity; file formats are judged in C14',
     'degenerate case compared with rtol 1e-9, plus the licensed e^-10 relative slack for emission (the cross-section path clamps saturated transmittances, the k path does not)',
